@@ -9,6 +9,7 @@
 #define _GNU_SOURCE
 #include <plibsys.h>
 #include "hout.h"
+#include "netns.h"
 #include <dirent.h>
 #include <dlfcn.h>
 #include <errno.h>
@@ -236,7 +237,7 @@ int main(int argc, char **argv)
 {
     char prob[800], icall[32]; int i;
     if (argc < 2) return 2;
-    hout_open();
+    verif_private_netns(); hout_open();
     snprintf(scratch, sizeof scratch, "%s", getenv("VERIF_SCRATCH_DIR") ? getenv("VERIF_SCRATCH_DIR") : "/tmp");
     snprintf(ini_path, sizeof ini_path, "%s/c18.ini", scratch); snprintf(junk_path, sizeof junk_path, "%s/file_a", scratch);
     snprintf(nm, sizeof nm, "vf20_%d", (int)getpid());
